@@ -501,8 +501,19 @@ class Extractor:
             self.dropped.append('%s: body of %s replaced by its contract (external_body)' % (rel, qname))
             return
         self.functions.append((qname, rel, 'proved'))
+        self._outlines = []
         self.emit_body(children, sf, it, qname)
         self.out.add('\n\n', ('glue',))
+        for (oname, osig, ospec, otext, orel, opos, oq) in self._outlines:
+            self.out.add('#[verifier::external_body]\npub fn %s%s\n' % (oname, osig), ('glue',))
+            if ospec.strip():
+                self.add_contract(oname, 'spec', ospec)
+            self.out.add('{\n', ('glue',))
+            self.out.add(self.strip_comments(otext), ('src', orel, opos, oq))
+            self.out.add('\n}\n\n', ('glue',))
+            self.functions.append((oname + ' (outlined from %s)' % oq, orel, 'assumed'))
+            self.dropped.append('%s: expression of %s outlined into %s, verified against its assumed contract only' % (orel, oq, oname))
+        self._outlines = []
 
     def add_contract(self, qname, block, text):
         lines = text.split('\n')
@@ -630,6 +641,30 @@ class Extractor:
                     edits.append((b, 2, '\n' + c.text + '\n', ('contract', qname, blk, c.text)))
                 else:
                     raise UnitSyntax('at: before|after expected')
+        # anchored replacement of a piece of the body:  replace "OLD" => "NEW" RULE   (rules R13, R14: see DESIGN 3.1)
+        for c in children:
+            if c.kind == 'replace':
+                oldt, newt, rule = c.args[0], c.args[2], (c.args[3] if len(c.args) > 3 else 'R13')
+                p0 = find_norm(text, oldt, bo, bc)
+                if p0 is None or not mask[p0[0]] or find_norm(text, oldt, p0[0] + 1, bc) is not None:
+                    raise LostAnchor('rewrite anchor %r of %s not found exactly once' % (oldt, qname))
+                repl.append((p0[0], p0[1], newt, ('rw', rel, R.line_of(text, p0[0]), qname, rule)))
+                self.log(rule, rel, R.line_of(text, p0[0]), '%s: %s => %s' % (qname, oldt, newt))
+        # R15 outlining:  outline "START" "END" NAME "(params) -> (r: T)" "(call args)" <<< contract >>>
+        # the expression from START to END is moved verbatim into a separate external_body function with an assumed contract
+        for c in children:
+            if c.kind == 'outline':
+                st, en, oname, osig, ocall = c.args[0], c.args[1], c.args[2], c.args[3], c.args[4]
+                p0 = find_norm(text, st, bo, bc)
+                if p0 is None or not mask[p0[0]] or find_norm(text, st, p0[0] + 1, bc) is not None:
+                    raise LostAnchor('outline start %r of %s not found exactly once' % (st, qname))
+                p1 = find_norm(text, en, p0[0], bc)
+                if p1 is None:
+                    raise LostAnchor('outline end %r of %s not found' % (en, qname))
+                line = R.line_of(text, p0[0])
+                repl.append((p0[0], p1[1], oname + ocall, ('rw', rel, line, qname, 'R15')))
+                self.log('R15', rel, line, '%s: expression `%s ... %s` outlined into external_body fn %s (assumed contract)' % (qname, st, en, oname))
+                self._outlines.append((oname, osig, c.text or '', text[p0[0]:p1[1]], rel, p0[0], qname))
         # R5 local macro expansion handled by directive `expand NAME`
         for c in children:
             if c.kind == 'expand':
